@@ -161,6 +161,11 @@ func (ex *Exec) callValue(st *State, fr *Frame, c *ssa.CallCommon, fnv Value, ar
 		setRes(ex.builtin(st, fr, b, c, args, pos))
 		return false
 	}
+	// cancelling a context touches nothing the contracts talk about
+	if typeName(c.Value.Type()) == "context.CancelFunc" {
+		setRes(TupleV{})
+		return false
+	}
 	ex.unknownCall(st, fr, "dynamic call in "+specName(fr.Fn), sig, args, dst, true)
 	return false
 }
